@@ -844,6 +844,23 @@ func c08Run(r *vf.Run, t *testing.T, id string, seq []sym, parked bool) {
 				}
 			}
 		}
+		if !failed {
+			// a stream the server has reset is closed for the server too: nothing but PRIORITY may follow its own RST_STREAM
+			// (RFC 7540 5.1, 6.4)
+			resetAt := map[uint32]int{}
+			for i, x := range e.P.Frames() {
+				switch x.Type {
+				case wire.TRstStream:
+					if _, seen := resetAt[x.Stream]; !seen {
+						resetAt[x.Stream] = i
+					}
+				case wire.THeaders, wire.TData, wire.TContinuation:
+					if at, ok := resetAt[x.Stream]; ok {
+						fail("frames-after-own-reset", fmt.Sprintf("the server reset stream %d (frame #%d) and then sent %s on it (frame #%d)", x.Stream, at, x, i))
+					}
+				}
+			}
+		}
 		e.Finish()
 	})
 	c01Outcome(r, id, res, nil, replay, "C08")
